@@ -297,6 +297,29 @@ func checkPGABuilder(c *Ctx, f *ssa.Function) {
 	for _, e := range exps {
 		c.Check(got[e.field] == e.want, "R7", "action-record:"+e.field, where, e.field+" ← "+e.want, fmt.Sprintf("published action field %s is %q, expected %q", e.field, got[e.field], e.want))
 	}
+	// the naming fields are filled whenever their source exists: the only conditions allowed
+	// are "a hand state exists" (round, hand id) and "the player index is in range" (seat)
+	named := map[string]bool{"PlayerID": true, "Action": true, "Chips": true, "TableID": true, "GameCount": true, "GameID": true, "Round": true, "Seat": true}
+	for _, ss := range p.Stores([]*ssa.Function{f}) {
+		if ss.Owner != "TablePlayerGameAction" || !named[ss.Field] {
+			continue
+		}
+		ok := true
+		for _, g := range p.Guards(ss.Instr) {
+			cm := g.AsCmp()
+			if cm == nil {
+				ok = false
+				continue
+			}
+			l, r := cm.L.Strip(), cm.R.Strip()
+			handExists := (ss.Field == "GameID" || ss.Field == "Round") && cm.Op == token.NEQ && r.IsNil() && l.IsField("TableState", "GameState")
+			inRange := ss.Field == "Seat" && cm.Op == token.LSS && symIsParam(l, f.Params[2]) && r.IsCall("len") && r.Args[0].Strip().IsField("TableState", "PlayerStates")
+			if !handExists && !inRange {
+				ok = false
+			}
+		}
+		c.Check(ok, "R7", "action-record-condition:"+ss.Field, p.InstrPos(ss.Instr), "filled whenever its source exists", "the published action's "+ss.Field+" is filled only under an unrelated or inverted condition")
+	}
 }
 
 func checkEngineValidator(c *Ctx, f *ssa.Function) {
